@@ -93,6 +93,7 @@ Definition expected_leading_whitespace_reads : list string := [
   "core/src/defaults/reconstructor.rs:nonbreaking_ws_len";
   "core/src/defaults/reconstructor.rs:process_cursors";
   "core/src/defaults/reconstructor.rs:reconstruct";
+  "core/src/defaults/reconstructor.rs:relocate_cursors";
   "core/src/defaults/reconstructor.rs:ws_len";
   "core/src/lang.rs:new_from_tokens" ]%string.
 
